@@ -131,7 +131,28 @@ class LspServer:
                     pass
                 return {"dead": self.p.poll()}
             time.sleep(0.002)
-        return {"timeout": True}
+        # No response within the watchdog. A watchdog alone is never a verdict: look at what the process is doing. All threads
+        # asleep and no CPU consumed for five consecutive seconds = blocked for good (the server waits for nothing but its own
+        # locks and its input, and it has input); still computing = wait on (generously), then report it as busy.
+        from ..common import _proc_cpu, _proc_all_sleeping
+        last, same = None, 0
+        extended = time.time() + 240
+        while time.time() < extended:
+            with self.lock:
+                if rid in self.responses:
+                    return self.responses.pop(rid)
+            if self.p.poll() is not None:
+                return {"dead": self.p.poll()}
+            cpu = _proc_cpu(self.p.pid)
+            if cpu is not None and cpu == last and _proc_all_sleeping(self.p.pid):
+                same += 1
+                if same >= 5:
+                    return {"timeout": True, "blocked": True}
+            else:
+                same = 0
+            last = cpu
+            time.sleep(1.0)
+        return {"timeout": True, "busy": True}
 
     def initialize(self):
         r = self.request("initialize", {"processId": None, "rootUri": uri_of(self.cwd), "capabilities": {}})
